@@ -158,7 +158,15 @@ func (g *gen) interest() Op {
 	r := g.r
 	o := Op{Op: "interest", Face: g.face(), Name: g.name()}
 	g.names = append(g.names, o.Name)
-	o.CBP = r.Chance(0.35)
+	// the decoder and the PIT accept an Interest with the empty name: with CanBePrefix it matches every Data
+	rootP := 0.01
+	if g.prop == "C09" {
+		rootP = 0.08
+	}
+	if r.Chance(rootP) {
+		o.Name = "/"
+	}
+	o.CBP = r.Chance(0.35) || (o.Name == "/" && r.Chance(0.8))
 	o.MBF = r.Chance(0.2)
 	// nonce: mostly fresh; sometimes reuse an earlier one (loop / retransmission); rarely absent
 	switch r.Weighted([]int{75, 20, 3}) {
